@@ -103,7 +103,12 @@ def construct_cases(rng, n, ctx):
             k = int(rng.integers(0, len(names)))
             l2 = list(idls[k])[::-1]
             idls[k] = l2
-            form = str(rng.choice(['list', 'ndarray', 'range'])) if len(set(np.diff(l2))) == 1 else str(rng.choice(['list', 'ndarray']))
+            if len(set(np.diff(l2))) > 1 and i % 2 == 0 and len(l2) >= 5:
+                # make it equally spaced (the branch that turns a list into a range), keeping length and first entry
+                l2 = [l2[0] - q * int(rng.integers(1, 4)) for q in range(len(l2))]
+                l2 = [l2[0] - q * (l2[0] - l2[1]) for q in range(len(l2))]
+                idls[k] = l2
+            form = ['list', 'ndarray', 'range'][i % 3] if len(set(np.diff(l2))) == 1 else ['list', 'ndarray'][i % 2]
             idl_arg[k] = l2 if form == 'list' else np.array(l2) if form == 'ndarray' else range(l2[0], l2[-1] + (l2[1] - l2[0]), l2[1] - l2[0])
         elif kind == 'dupcfg':
             k = int(rng.integers(0, len(names)))
